@@ -103,9 +103,14 @@ def _wrap_rng(name):
     _REAL_RNG[name] = real
 
     def wrapper(*a, **k):
-        RNG_LOG.append((name, tuple(_summ(i) for i in a),
-                        tuple(sorted((kk, _summ(v)) for kk, v in k.items()))))
-        return real(*a, **k)
+        out = real(*a, **k)
+        entry = (name, tuple(_summ(i) for i in a),
+                 tuple(sorted((kk, _summ(v)) for kk, v in k.items())))
+        if name == 'choice':
+            # what was drawn is *observed* (never prescribed) by oracles
+            entry = entry + (np.array(out, copy=True),)
+        RNG_LOG.append(entry)
+        return out
     wrapper.__name__ = name
     wrapper.__wrapped__ = real
     return wrapper
